@@ -83,3 +83,11 @@ Example C08_prefix_sep_nonvacuous :
     partition (fun _ => false) ex2 (TCat sp ts) = Ok (PartSome [97; 47; 98; 47]%N post e') /\
     skipn 4 ts = first :: rest /\ starts_tree_list (first :: rest) = false.
 Proof. exact partition_prefix_sep_nonvacuous. Qed.
+
+From WaxProofs Require Import PartitionSpans.
+
+(* the last clause: the capture spans of the postfix are relative to the displayed suffix *)
+Theorem C08_postfix_capture_spans_are_relative_to_the_suffix : forall hc e t r text post e' c,
+  build e = BuildOk t r -> partition hc e t = Ok (PartSome text post e') -> In c (captures post) -> span_ok e' (snd c).
+Proof. exact postfix_capture_spans_ok. Qed.
+Print Assumptions C08_postfix_capture_spans_are_relative_to_the_suffix.
